@@ -282,7 +282,12 @@ Viol(pre, c, r, h) ==
                    \/ (~ine /\ c.op \in {"eom_add", "eom_off", "eom_mod"}))
         THEN {"C13.RefusalHasModeReason"} ELSE {})
   \cup (IF ~DevOf(post).reusable
-           /\ \E j, k \in 1..Len(post.ch) : j # k /\ post.ch[j].cid = post.ch[k].cid
+           /\ \/ \E j, k \in 1..Len(post.ch) : j # k /\ post.ch[j].cid = post.ch[k].cid
+              \* a DMM whose configuration is only stored (parametrized sequence) is declared too
+              \/ \E j, k \in 1..Len(post.tb) :
+                    j # k /\ post.tb[j][1] = "detmap" /\ post.tb[k] = post.tb[j]
+              \/ \E j \in 1..Len(post.tb), k \in 1..Len(post.ch) :
+                    post.tb[j][1] = "detmap" /\ post.tb[j][2] = post.ch[k].cid
         THEN {"C13.OncePerId"} ELSE {})
   \cup (IF \E j, k \in 1..Len(post.ch) : j # k /\ post.ch[j].nm = post.ch[k].nm
         THEN {"C13.UniqueNames"} ELSE {})
